@@ -11,7 +11,16 @@ import digital_rf.list_drf as L
 
 class SymFS:
     """files: path -> content id; dirs: set of paths.  log of mutating ops, snapshots after every content-changing op"""
-    def __init__(self, files, dirs): self.files = dict(files); self.dirs = set(dirs); self.log = []; self.snap = [dict(self.files)]; self.links = {}; self.mtime = {}
+    def __init__(self, files, dirs): self.files = dict(files); self.dirs = set(dirs); self.log = []; self.snap = [dict(self.files)]; self.links = {}; self.mtime = {}; self.dirlinks = {}
+    def phys(self, p):
+        """physical location of a logical path (a directory on the way may be a symbolic link to a directory elsewhere)"""
+        for lnk, real in self.dirlinks.items():
+            if p == lnk or p.startswith(lnk + '/'): return real + p[len(lnk):]
+        return p
+    def logical(self, p):
+        for lnk, real in self.dirlinks.items():
+            if p == real or p.startswith(real + '/'): return lnk + p[len(real):]
+        return p
     def _snap(self): self.snap.append(dict(self.files))
 
 
@@ -70,9 +79,12 @@ class FakeOS:
         if b in self.fs.files: raise FileExistsError(b)
         self.fs.files[b] = self.fs.files[a]; self.fs.links[b] = self.fs.links.get(a, a); self.fs.log.append(('link', a, b)); self.fs._snap()
     def symlink(self, a, b):
-        a, b = N(a), N(b)
+        b = N(b)
         if b in self.fs.files: raise FileExistsError(b)
-        self.fs.files[b] = self.fs.files.get(a, ('dangling', a)); self.fs.log.append(('symlink', a, b)); self.fs._snap()
+        # the kernel resolves a relative target from the directory the link PHYSICALLY lives in
+        tgt = N(a) if a.startswith('/') else N(posixpath.join(posixpath.dirname(self.fs.phys(b)), a))
+        tgt = self.fs.logical(tgt)
+        self.fs.files[b] = self.fs.files.get(tgt, ('dangling', tgt)); self.fs.log.append(('symlink', a, b)); self.fs._snap()
 
 
 class FakeCmp:
@@ -290,7 +302,7 @@ def _run_cmd(cmd: int, ch_style: int, present0: bool, present1: bool, symbolic: 
     return _do_cmd(cmd, ch_style, present0, present1, symbolic, dst_pre)
 
 
-def _do_cmd(cmd, ch_style, present0, present1, symbolic, dst_pre):
+def _do_cmd(cmd, ch_style, present0, present1, symbolic, dst_pre, dest_linked=False):
     # (no contract of its own: CrossHair assumes the contracts of callees and silently drops paths on which they fail)
     # cp (0) / mv (1) / ln (2) with the listing replaced by a stub yielding 0..2 files below the (normalised) source: exactly the listed
     # files arrive at dest/<same relative path>, directories are created as needed, cp/ln leave the source unchanged, mv removes exactly
@@ -306,6 +318,7 @@ def _do_cmd(cmd, ch_style, present0, present1, symbolic, dst_pre):
         # cp / mv onto a destination that already holds a different (same-size, newer) file at the path of the first listed file
         dpre = ('/d' if not chs else '/d/ch0') + '/2020-01-01T00-00-00/rf@1.000.h5'
         fs.files[dpre] = ('old', 0); fs.mtime[dpre] = 2; fs.dirs.update(['/d', '/d/ch0', posixpath.dirname(dpre)]); fs.snap = [dict(fs.files)]
+    if dest_linked: fs.dirlinks['/d'] = '/mnt/disk1/archive/d'        # the destination is reached through a symbolic link to a directory elsewhere
     fos = FakeOS(fs)
     calls = []
     def ils(path, **kw):
@@ -365,12 +378,12 @@ def _run_mv(ch_style: int, present0: bool, present1: bool, dst_pre: bool) -> boo
     return _do_cmd(1, ch_style, present0, present1, False, dst_pre)
 
 
-def _run_ln(ch_style: int, present0: bool, present1: bool, symbolic: bool) -> bool:
+def _run_ln(ch_style: int, present0: bool, present1: bool, symbolic: bool, dest_linked: bool) -> bool:
     """
     pre: 0 <= ch_style <= 3
     post: _
     """
-    return _do_cmd(2, ch_style, present0, present1, symbolic, False)
+    return _do_cmd(2, ch_style, present0, present1, symbolic, False, dest_linked)
 
 
 def _run_witness(cmd: int, present0: bool) -> bool:
